@@ -678,7 +678,13 @@ func c19RunMutations(in *c19Input, res *verifkit.Result, diverge map[string]int)
 
 // c19Judge compares the digests before/after one concrete mutation with the property (verdict) and the model (note).
 func c19Judge(res *verifkit.Result, diverge map[string]int, m c19Mutation, style string, bd, md map[string]string, replay interface{}) {
-	for d, before := range bd {
+	ds := make([]string, 0, len(bd))
+	for d := range bd {
+		ds = append(ds, d)
+	}
+	sort.Strings(ds)
+	for _, d := range ds {
+		before := bd[d]
 		changed := before != md[d]
 		res.Count(fmt.Sprintf("mut|%s|%v|%s|%s|%s", m.Kind, m.Shape, m.Field, style, d))
 		if c19Has(m.Required, d) && !changed {
@@ -858,7 +864,13 @@ func c19RunLists(in *c19Input, res *verifkit.Result, diverge map[string]int) {
 			}
 		}
 		reported := 0
-		for _, idx := range byReal {
+		realKeys := make([]string, 0, len(byReal))
+		for k := range byReal {
+			realKeys = append(realKeys, k)
+		}
+		sort.Slice(realKeys, func(i, j int) bool { return byReal[realKeys[i]][0] < byReal[realKeys[j]][0] })
+		for _, rk := range realKeys {
+			idx := byReal[rk]
 			if len(idx) < 2 {
 				continue
 			}
@@ -915,7 +927,11 @@ func c19RunLists(in *c19Input, res *verifkit.Result, diverge map[string]int) {
 			sw[i], sw[j] = sw[j], sw[i]
 			variants["swap"] = sw
 		}
-		for name, v := range variants {
+		for _, name := range []string{"replace", "remove", "append", "appendCopyOfLast", "swap"} {
+			v, present := variants[name]
+			if !present {
+				continue
+			}
 			res.Count(fmt.Sprintf("longlist|%d|%s", k, name))
 			if bytes.Equal(CalculateTxsRootHash(v), root) {
 				vid := make([]string, len(v))
@@ -1110,7 +1126,13 @@ func c19RunCids(in *c19Input, res *verifkit.Result, diverge map[string]int) {
 			}
 		}
 		reported := 0
-		for _, ids := range byBytes {
+		byteKeys := make([]string, 0, len(byBytes))
+		for k := range byBytes {
+			byteKeys = append(byteKeys, k)
+		}
+		sort.Strings(byteKeys)
+		for _, bk := range byteKeys {
+			ids := byBytes[bk]
 			for i := 1; i < len(ids); i++ {
 				if !ids[0].Equals(ids[i]) && reported < 3 {
 					class := "other"
